@@ -133,9 +133,9 @@ def h_run_on(sk, pmode, init_mode, cap, seed):
         S.check('Step:missing-attribute-reads-as-None', S.truth(steps[-1].action is None and steps[-1].reward is None))
 
 
-def h_calc_returns(n):
+def h_calc_returns(n, gamma='sym'):
     rs = [S.real('r_%d' % i) for i in range(n)]
-    g = S.real('gamma', 0, 1, lo_strict=True)
+    g = S.real('gamma', 0, 1, lo_strict=True) if gamma == 'sym' else gamma      # also the end points 0.0 and 1.0 exactly (0.0 ** negative overflows inside)
     uses = []
     with facades(uses):
         rets = pol.Policy.calc_returns(rs, g)
@@ -147,7 +147,7 @@ def h_calc_returns(n):
         spec[t] = G
     ok += [S.eq(rets[t], spec[t]) for t in range(n)]
     S.check('calc_returns:backward-recursion-G_t=r_t+gamma*G_{t+1}', S.And(ok))
-    if n >= 2:
+    if n >= 2 and gamma == 'sym':
         S.check('mustfail:returns-undiscounted', S.eq(rets[0], S.Sum(rs)))
 
 
@@ -268,6 +268,28 @@ def _num_eq(x, y):
     return bool(r)
 
 
+def rt_long_returns(seed, n):
+    """R: calc_returns on LONG reward sequences with small discounts (discount ** -t overflows to inf below the diagonal) and at discount 0: every entry is
+    the backward recursion G_t = r_t + gamma * G_{t+1}, none is nan"""
+    import random, warnings
+    rnd = random.Random('long/%s' % seed)
+    out = []
+    for k in range(n):
+        g = [0.0, 0.1, 0.5, 0.9, 1.0][k % 5]
+        T_ = rnd.choice([1, 2, 7, 330, 1100]) if k >= 5 else [330, 330, 1100, 40, 40][k]
+        rs = [rnd.choice([-2., -1., 0., .5, 3.]) for _ in range(T_)]
+        with warnings.catch_warnings():
+            warnings.simplefilter('ignore')
+            rets = pol.Policy.calc_returns(rs, g)
+        G, want = 0.0, [0.0] * T_
+        for t in reversed(range(T_)):
+            G = rs[t] + g * G
+            want[t] = G
+        ok = len(rets) == T_ and all((x == x) and abs(x - y) <= 1e-9 * (1 + abs(y)) for x, y in zip(rets, want))
+        out.append(dict(name='rt:calc_returns:long-sequences-and-end-point-discounts:backward-recursion,no-nan', ok=bool(ok), witness=dict(gamma=g, length=T_, first=repr(list(rets[:3])), want=repr(want[:3]))))
+    return out
+
+
 def rt_deterministic(seed, n):
     """R: for deterministic policies on deterministic MDPs the simulation-based evaluation equals the exact evaluation truncated at the cap"""
     import random
@@ -339,6 +361,9 @@ def tasks(tier, seed):
         T.append(Task('evaluate_on/%s/full/n1/cap3/undiscounted' % sk.name, h_evaluate_on, (sk, 'full', 1, 3, seed, 'one'), tier='B', max_paths=4000))
     for n in ([0, 1, 2, 3, 5] + ([8] if tier == 'thorough' else [])):
         T.append(Task('calc_returns/n%d' % n, h_calc_returns, (n,), tier='B', expect_fail=('mustfail:returns-undiscounted',) if n >= 2 else ()))
+        if n in (2, 3):
+            for gv in (0.0, 1.0):
+                T.append(Task('calc_returns/n%d/gamma=%s' % (n, gv), h_calc_returns, (n, gv), tier='B', note='discount at an end point'))
     for sk in P.family(tier, seed):
         for kind in ('belief', 'fsc'):
             for cap in ([0, 1, 2] if tier == 'quick' else [0, 1, 2, 3]):
@@ -353,6 +378,7 @@ def tasks(tier, seed):
         for ga in (True, False):
             T.append(Task('U/pomdp_run_on/abstract/%s/%s' % ('state-given' if gs else 'state-sampled', 'ag-given' if ga else 'ag-default'), h_pomdp_run_on_U, (gs, ga), tier='U',
                           note='uninterpreted POMDP / policy, symbolic atoms, symbolic step cap, loop cut: unbounded'))
+    T.append(Task('rt/long-returns', rt_long_returns, (seed, 10 if tier == 'quick' else 40), tier='R', kind='rt'))
     T.append(Task('rt/deterministic-equals-exact', rt_deterministic, (seed, 60 if tier == 'quick' else 500), tier='R', kind='rt'))
     return T
 
